@@ -1198,6 +1198,11 @@ func (f *fragment) minUnsigned(filter *Row, bitDepth uint) (min int64, count uin
 			}
 		}
 	}
+	// With a bit depth of zero the loop does not run: every column in the
+	// filter holds the magnitude 0.
+	if bitDepth == 0 {
+		count = filter.Count()
+	}
 	return min, count
 }
 
@@ -1237,6 +1242,11 @@ func (f *fragment) maxUnsigned(filter *Row, bitDepth uint) (max int64, count uin
 		} else if i == 0 {
 			count = filter.Count()
 		}
+	}
+	// With a bit depth of zero the loop does not run: every column in the
+	// filter holds the magnitude 0.
+	if bitDepth == 0 {
+		count = filter.Count()
 	}
 	return max, count
 }
